@@ -40,6 +40,11 @@ let () =
                         | None -> ())
                    | _ -> ())
               | Some d ->
+                  (* only state transitions and op constructors count: probes of pure functions do not change what the
+                     replicas of the case hold *)
+                  (let is_step = List.exists (fun sfx -> let n = String.length sfx and m = String.length f in m >= n && String.sub f (m - n) n = sfx)
+                                   [".apply"; ".merge"; ".update"; ".rm"; ".add"; ".add_all"; ".rm_all"; ".write"; ".insert_index"; ".append"; ".delete_index"; ".insert"; ".insert_after"; ".insert_before"; ".inc"; ".dec"; ".inc_many"; ".dec_many"; "ctx.derive_add"; "ctx.derive_rm"] in
+                   if is_step then Monitors.deviated := true);
                   incr mism;
                   if !mism <= limit then
                     Printf.printf "MISMATCH case=%s cmd=%s fn=%s %s\n    line=%s\n" !cur_case !cur_cmd f d line)
